@@ -5,17 +5,20 @@ Property theorems only.  The model is the transition system `Model/DirectWrite.l
 (`PrintrunWriter.write` split into `clear ack; enqueue; wait; raise stored error`, the connect
 handshake, printcore's reader / print / sender threads, a device answering every command with status
 lines and one terminal reply after any delay and pushing surplus `ok` / unsolicited error lines at any
-time, connection loss).  A *schedule* is any `List Act`; `run {} acts = some s` says that `acts` is an
+time and greeting with `Grbl …` (after which printcore sends no `M110` and `connect()` awaits the `ok` of the
+connect probe), connection loss).  A *schedule* is any `List Act`; `run {} acts = some s` says that `acts` is an
 execution from the moment the port was opened.  Helper lemmas and invariants: `Lemmas/DirectWrite.lean`.
 
 Two hypotheses are not discharged, both ghost flags written by the model at a structural point:
 * `s.backlog = false` - when `startprint` ran, no command sent before (a connect probe) was still
-  unanswered (finding `C16-handshake-backlog`);
+  unanswered (finding `C16-handshake-backlog`); without line numbers (`Grbl` greeting): at most the one probe
+  whose `ok` `connect()` then awaits (`backlogAt`);
 * `s.surplusHit = false` - no flag-setting line that is nobody's terminal reply (the `ok` after an
   `Error:` line, a spurious `ok`, an unsolicited alarm) was read while `connect()` awaited a reset or
-  while a `write()` had cleared the flag and not yet read its own reply (finding `C16-surplus-reply`).
-Both hold when a single probe was sent and the device emitted neither a "T:" report nor such lines
-(`C16_single_probe_clean`); runs violating them are the `decide` witnesses at the end of the file.
+  while a `write()` had cleared the flag and not yet read its own reply (finding `C16-surplus-reply`); a
+  greeting read by `_listen` while `connect()` awaits an acknowledgement counts as such a line.
+Both hold when a single probe was sent and the device emitted neither a "T:" report nor such lines nor a greeting
+(`C16_single_probe_clean`), and when it greeted first and then behaved like that (`C16_grbl_single_probe_clean`); runs violating them are the `decide` witnesses at the end of the file.
 A surplus line read *between* two `write()` calls is harmless - that case is covered by the theorems. -/
 open GscribModel.DirectWrite
 
@@ -59,12 +62,13 @@ theorem C16_sync (acts : List Act) (s : St) (hr : run {} acts = some s) (hb : s.
   · exact Or.inr h
 
 /-- **The ordinary handshake is clean**: if the reader sent one `G4 P0` only and the device never emitted
-    a line containing "T:" nor a surplus `ok` / unsolicited error line, both hypotheses hold. -/
+    a line containing "T:" nor a surplus `ok` / unsolicited error line nor a greeting (`Act.noTemp`), both
+    hypotheses hold. -/
 theorem C16_single_probe_clean (acts : List Act) (s : St) (hr : run {} acts = some s)
     (hnt : ∀ a ∈ acts, a.noTemp = true) (hp : s.probes ≤ 1) : s.backlog = false ∧ s.surplusHit = false := by
   have hj := jInv_run acts {} s hnt jInv_init hr
   have hpi := pInv_run acts {} s hnt pInv_init hr
-  refine ⟨?_, hpi.2.2⟩
+  refine ⟨?_, hpi.2.2.1⟩
   by_cases hw : s.cphase = .waitOnline
   · exact (hj.1 hw).2.2.2.1
   · exact (hj.2 hw).2 hp
@@ -74,6 +78,26 @@ theorem C16_sync_single_probe (acts : List Act) (s : St) (hr : run {} acts = som
     (hnt : ∀ a ∈ acts, a.noTemp = true) (hp : s.probes ≤ 1) :
     ∀ p ∈ s.outcomes, (Cmd.stmt p.1 ∈ s.heard ∧ Cmd.stmt p.1 ∈ s.devLog) ∨ (s.lost = true ∧ p.2 = true) :=
   C16_sync acts s hr (C16_single_probe_clean acts s hr hnt hp).1 (C16_single_probe_clean acts s hr hnt hp).2
+
+/-- **The ordinary handshake without line numbers is clean too**: the controller greets with `Grbl …` when the port
+    is opened (the greeting is the first line on the wire: the schedule begins with `dGreet`), the reader sent one
+    `G4 P0` only, and the device emitted no surplus `ok` / unsolicited error line / second greeting (`Act.noTemp`):
+    both hypotheses hold - `connect()` returns on the `ok` of that probe, however late it comes. -/
+theorem C16_grbl_single_probe_clean (acts : List Act) (s : St) (hr : run {} (.dGreet :: acts) = some s)
+    (hnt : ∀ a ∈ acts, a.noTemp = true) (hp : s.probes ≤ 1) : s.backlog = false ∧ s.surplusHit = false := by
+  rw [run_dGreet] at hr
+  obtain ⟨_, _, _, hs, h1, h2⟩ := gInv_run acts grblInit s hnt gInv_init hr
+  refine ⟨?_, hs⟩
+  by_cases hw : s.cphase = .waitOnline
+  · exact (h1 hw).2.2.2.1
+  · exact h2 hw hp
+
+/-- `C16_sync` without hypotheses on ghost flags for the ordinary handshake of a controller that greets. -/
+theorem C16_sync_grbl_single_probe (acts : List Act) (s : St) (hr : run {} (.dGreet :: acts) = some s)
+    (hnt : ∀ a ∈ acts, a.noTemp = true) (hp : s.probes ≤ 1) :
+    ∀ p ∈ s.outcomes, (Cmd.stmt p.1 ∈ s.heard ∧ Cmd.stmt p.1 ∈ s.devLog) ∨ (s.lost = true ∧ p.2 = true) :=
+  C16_sync (.dGreet :: acts) s hr (C16_grbl_single_probe_clean acts s hr hnt hp).1
+    (C16_grbl_single_probe_clean acts s hr hnt hp).2
 
 /-- **Errors surface**: if the device answered statement k with `error…|alarm…|!!…`, `write k` raised
     `DeviceError`. -/
@@ -211,6 +235,33 @@ example :
              .dProcess [] false, .lListen, .cPoll,
              .wClear, .wEnq, .sSend, .dProcess [] false, .lListen, .wWake, .wFinish]).map C16_view
       = some ⟨[(0, false)], true, false, [], [.stmt 0], .connected⟩ := by decide
+
+/-- **Without line numbers** (`Grbl` greeting read first): no `M110` is ever sent, `connect()` returns on the `ok`
+    of the probe, and an ordinary session is a run with both ghost flags down (non-vacuity of the theorems in that
+    mode): statement 0 acknowledged after a status line, statement 1 answered with an error, `disconnect(wait=True)`. -/
+example :
+    (run {} [.lProbe, .dGreet, .lListen, .cOnline, .dProcess [] false, .lListen, .pSendnext, .cPoll,
+             .wClear, .wEnq, .sSend, .dProcess [false] false, .lListen, .lListen, .wWake, .wFinish,
+             .wClear, .wEnq, .sSend, .dProcess [] true, .lListen, .wWake, .wFinish, .cDisc]).map
+        (fun s => (C16_view s, s.lineNumbers, s.devLog))
+      = some (⟨[(0, false), (1, true)], false, false, [0, 1], [], .disconnected⟩, false,
+              [.probe, .stmt 0, .stmt 1]) := by decide
+
+/-- finding `C16-handshake-backlog` without line numbers: two probes pile up before the greeting is read; `connect()`
+    returns on the first probe's `ok`, `write 0` on the second's, while the device has not received statement 0. -/
+example :
+    (run {} [.lProbe, .lProbe, .dGreet, .lListen, .cOnline, .dProcess [] false, .lListen, .pSendnext, .cPoll,
+             .wClear, .wEnq, .sSend, .dProcess [] false, .lListen, .wWake, .wFinish]).map C16_view
+      = some ⟨[(0, false)], true, false, [], [.stmt 0], .connected⟩ := by decide
+
+/-- Observation (liveness, outside this property): without line numbers, a probe acknowledged *before* `startprint`
+    runs leaves nothing that could raise `clear` again: `connect()` never returns (no host thread can move; only a
+    connection loss or a further flag-setting line ends the wait).  Safety holds vacuously: no `write` starts. -/
+example :
+    (run {} [.lProbe, .dGreet, .lListen, .dProcess [] false, .lListen, .cOnline]).map
+        (fun s => (s.backlog, s.printing, s.clear, pending s, s.toDev.isEmpty && s.toHost.isEmpty,
+                   [Act.pSendnext, .cPoll, .sSend, .wClear, .cOnline, .lProbe, .lListen].all (fun a => (step s a).isNone)))
+      = some (false, true, false, true, true, true) := by decide
 
 /-- the clean connect prefix used below: one probe, both resets acknowledged -/
 def C16_connectActs : List Act :=
